@@ -25,8 +25,8 @@ from vf.explore import Spec
 from vf.symex import SymBool, SymInt, _z, sand, smax, smin
 from vf.world import ZERO8, C, SymBytes, World, sym_len
 
-UNIVERSE = ["a", "b", "d", "d/a", "d/e", "m/x"]  # m never exists: path with a missing parent
-PARENT = {"d/a": "d", "d/e": "d", "m/x": "m"}
+UNIVERSE = ["a", "b", "d", "d/a", "d/e", "m/x", "d/e/f"]  # m never exists: path with a missing parent
+PARENT = {"d/a": "d", "d/e": "d", "m/x": "m", "d/e/f": "d/e"}  # d/e may be a directory (holding d/e/f) in "deep" specs
 PAYLOAD_SRC = 90
 
 
@@ -108,6 +108,13 @@ class Tree:
     def children(self, p):
         return [q for q in self.kind if PARENT.get(q) == p]
 
+    def descendants(self, p):
+        out = []
+        for c in self.children(p):
+            out.append(c)
+            out.extend(self.descendants(c))
+        return out
+
 
 # --------------------------------------------------------------------------- symbolic OS behind the shims
 class OS:
@@ -162,6 +169,22 @@ class OsPath(PurePosixPath):
 
     def rmdir(self):
         OsShim.rmdir(self)
+
+    def iterdir(self):
+        if not self.is_dir():
+            raise (NotADirectoryError if self.exists() else FileNotFoundError)(self.key())
+        return iter([OsPath(c) for c in sorted(OS.tree.children(self.key()))])
+
+    def glob(self, pattern):
+        if pattern not in ("*", "**/*"):
+            raise symex.Unsupported(f"glob pattern {pattern!r} is not modelled")
+        names = OS.tree.children(self.key()) if pattern == "*" else OS.tree.descendants(self.key())
+        return iter([OsPath(c) for c in sorted(names)])
+
+    def rglob(self, pattern):
+        if pattern != "*":
+            raise symex.Unsupported(f"rglob pattern {pattern!r} is not modelled")
+        return iter([OsPath(c) for c in sorted(OS.tree.descendants(self.key()))])
 
     def rename(self, new):
         _os_move(self.key(), OsPath(new).key(), overwrite=False)
@@ -347,6 +370,42 @@ class OsShim:
             except OSError:
                 pass
 
+    @staticmethod
+    def listdir(p="."):
+        k = OsPath(p).key()
+        if not OS.tree.is_dir(k):
+            raise (NotADirectoryError if OS.tree.exists(k) else FileNotFoundError)(k)
+        return sorted(PurePosixPath(c).name for c in OS.tree.children(k))
+
+    @staticmethod
+    def scandir(p="."):
+        class _Entry:
+            def __init__(self, key):
+                self.path, self.name = key, PurePosixPath(key).name
+
+            def is_dir(self, follow_symlinks=True):
+                return OS.tree.is_dir(self.path)
+
+            def is_file(self, follow_symlinks=True):
+                return OS.tree.kind.get(self.path) == "file"
+
+            def __fspath__(self):
+                return self.path
+
+        class _It(list):
+            def __enter__(self):
+                return self
+
+            def __exit__(self, *a):
+                return False
+
+            def close(self):
+                pass
+        k = OsPath(p).key()
+        if not OS.tree.is_dir(k):
+            raise (NotADirectoryError if OS.tree.exists(k) else FileNotFoundError)(k)
+        return _It(_Entry(c) for c in sorted(OS.tree.children(k)))
+
     class path:  # noqa: N801 - os.path
         exists = staticmethod(lambda p: OS.tree.exists(OsPath(p).key()))
         isdir = staticmethod(lambda p: OS.tree.is_dir(OsPath(p).key()))
@@ -359,7 +418,11 @@ class ShutilShim:
     def rmtree(p):
         k = OsPath(p).key()
         t = OS.tree
-        for c in t.children(k):
+        if not t.exists(k):
+            raise FileNotFoundError(k)
+        if not t.is_dir(k):
+            raise NotADirectoryError(k)
+        for c in t.descendants(k):
             t.kind.pop(c, None)
             t.files.pop(c, None)
         del t.kind[k]
@@ -438,7 +501,7 @@ def reference(t, op, p, q, off, payload, rlen):
             return FRC.REMOVE_DIR_NOT_ALLOWED, n
         if op == "remove_directory" and t.children(p):
             return FRC.REMOVE_DIR_NOT_ALLOWED, n
-        for c in t.children(p):
+        for c in t.descendants(p):
             n.kind.pop(c, None)
             n.files.pop(c, None)
         del n.kind[p]
@@ -518,15 +581,15 @@ def tree_same_sym(ctx, got, want, x, what):
                  lambda: {"sig": f"{what}: content of {k} at the witness"})
 
 
-def harness(ctx, op, p, q):
+def harness(ctx, op, p, q, deep=False):
     w = World(ctx)
     bind(w.sym)
     # ---- arbitrary tree over the universe
     t = Tree()
     for k in UNIVERSE:
-        if k == "m/x":
+        if k == "m/x" or (k == "d/e/f" and not deep):
             continue
-        kinds = ["absent", "file", "dir"] if k in ("a", "b", "d") else ["absent", "file"]
+        kinds = ["absent", "file", "dir"] if k in ("a", "b", "d") or (deep and k == "d/e") else ["absent", "file"]
         kd = ctx.pick("kind_" + k.replace("/", "_"), kinds)
         if kd == "absent":
             continue
@@ -712,6 +775,11 @@ def plan(tier):
             for q in qs:
                 specs.append(Spec(f"{op}/{p}" + (f"->{q}" if op in TWO_PATH else ""), "vf.harness.c17:harness",
                                   {"op": op, "p": p, "q": q}, twin_share=1.0))
+    # nested directories: d/e may itself be a directory holding d/e/f
+    for op, p in (("remove_directory_recursive", "d"), ("remove_directory", "d"), ("remove_directory_recursive", "d/e"),
+                  ("remove_directory", "d/e"), ("delete_file", "d/e"), ("create_file", "d/e/f")):
+        specs.append(Spec(f"{op}/{p}/nested", "vf.harness.c17:harness", {"op": op, "p": p, "q": p, "deep": True},
+                          twin_share=1.0))
     # sequences on one filestore object (state carried from call to call)
     specs.append(Spec("sequence/K=4/core", "vf.harness.c17:h_seq", {"K": 4, "alphabet": ["core"]}, twin_share=0.1))
     specs.append(Spec("sequence/K=3/core+more", "vf.harness.c17:h_seq", {"K": 3, "alphabet": ["core", "more"]},
